@@ -20,6 +20,7 @@ from __future__ import annotations
 
 import asyncio
 import inspect
+import json
 import random
 import warnings
 import weakref
@@ -45,8 +46,25 @@ class UserErr(Exception):
     pass
 
 
-def build_manager(spec):
+def _spell(policy: str, own_enum, how: int):
+    """the policy as a string, as the manager's own enum member, or as a member of an application's str enum with the same
+    value (all three are accepted spellings: to_enum converts by value)"""
+    if how == 1:
+        return own_enum(policy)
+    if how == 2:
+        import enum
+        return enum.Enum('AppPolicy', {'CHOSEN': policy, 'OTHER': 'x'}, type=str).CHOSEN
+    return policy
+
+
+def build_manager(spec, how: int = 0):
     k = spec[0]
+    if k == 'seqlim' and how:
+        from eascheduler.task_managers.sequential import SequentialTaskPolicy
+        return LimitingSequentialTaskManager(spec[1], _spell(spec[2], SequentialTaskPolicy, how))
+    if k == 'parlim' and how:
+        from eascheduler.task_managers.parallel import ParallelTaskPolicy
+        return LimitingParallelTaskManager(spec[1], _spell(spec[2], ParallelTaskPolicy, how))
     if k == 'seq':
         return SequentialTaskManager()
     if k == 'seqlim':
@@ -64,7 +82,8 @@ class Runtime:
     def __init__(self, case, loop) -> None:
         self.case, self.loop = case, loop
         self.kind = case['mgr'][0]
-        self.mgr = build_manager(case['mgr'])
+        import zlib
+        self.mgr = build_manager(case['mgr'], zlib.crc32(json.dumps(case, sort_keys=True, default=str).encode()) % 3)
         self.coros: dict[int, object] = {}
         self.coro_cid: dict[int, int] = {}          # id(coroutine) -> cid (coroutines are kept alive here)
         self.keys: dict[int, int] = {}
@@ -241,10 +260,14 @@ class Runtime:
         t0 = self.view_tracked()
         r0 = self.view_running()
         n0 = len(self.started)
-        if self.kind == 'dedup':
-            ret = self.mgr.create_task(coro, key)
-        else:
-            ret = self.mgr.create_task(coro)
+        raised = None
+        try:
+            if self.kind == 'dedup':
+                ret = self.mgr.create_task(coro, key)
+            else:
+                ret = self.mgr.create_task(coro)
+        except Exception as e:  # noqa: BLE001   (a submission must not raise: judged by the oracle)
+            ret, raised = None, type(e).__name__
         newly_closed = self._closed_now()
         self.closed += newly_closed
         t1 = self.view_tracked()
@@ -255,7 +278,7 @@ class Runtime:
             'ev': self.evi, 'inside': inside, 'cid': cid, 'key': key, 'q0': q0, 'q1': q1, 'qk1': qk1,
             'run0': r0, 'run1': self.view_running(), 't0': t0, 't1': t1, 'closed': newly_closed,
             'victims': victims, 'victim_state': [self._cancel_state(v) for v in victims],
-            'ret': self.cid_of_task(ret), 'started': self.started[n0:],
+            'ret': self.cid_of_task(ret) if ret is not None else None, 'started': self.started[n0:], 'raised': raised,
         })
 
     def _cancel_state(self, cid: int):
